@@ -36,6 +36,17 @@ def encodings(ev):
         out.append(('intersection', '', '{{ %s }} & {{ %s }}' % (sig(ev[0]), '; '.join(sig(n) for n in ev[1:])), ''))
         out.append(('union-of-aliases', 'type E0 = (e: \'%s\') => void;\ntype E1 = {{ %s }};\n' % (ev[0], '; '.join(sig(n) for n in ev[1:])), 'E0 | E1', ''))
         out.append(('mixed-literal-and-alias', "type Ev = %s;\n" % ' | '.join("'%s'" % n for n in ev[1:]), "(e: '%s' | Ev) => void" % ev[0], ''))
+    if len(ev) >= 2:
+        rest = '; '.join(sig(n) for n in ev[1:])
+        out.append(('extends-alias', 'type B0 = {{ %s }};\ninterface Em extends B0 {{ %s }}\n' % (sig(ev[0]), rest), 'Em', ''))
+        out.append(('extends-alias-property', "type B0 = {{ '%s': [v: number] }};\ninterface Em extends B0 {{ %s }}\n" % (ev[0], '; '.join("'%s': []" % n for n in ev[1:])), 'Em', ''))
+        out.append(('extends-two', 'interface B0 {{ %s }}\ninterface B1 {{ %s }}\ninterface Em extends B0, B1 {{}}\n' % (sig(ev[0]), rest), 'Em', ''))
+        out.append(('extends-chain-alias', 'type B0 = {{ %s }};\ninterface B1 extends B0 {{}}\ninterface Em extends B1 {{ %s }}\n' % (sig(ev[0]), rest), 'Em', ''))
+        out.append(('intersection-of-aliases', 'type E0 = {{ %s }};\ninterface E1 {{ %s }}\n' % (sig(ev[0]), rest), 'E0 & E1', ''))
+        out.append(('union-of-interfaces', 'interface E0 {{ %s }}\ninterface E1 {{ %s }}\n' % (sig(ev[0]), rest), 'E0 | E1', ''))
+        out.append(('merged-interfaces', 'interface Em {{ %s }}\ninterface Em {{ %s }}\n' % (sig(ev[0]), rest), 'Em', ''))
+        out.append(('alias-of-interface', 'interface E0 {{ %s; %s }}\ntype Em = E0;\n' % (sig(ev[0]), rest), 'Em', ''))
+        out.append(('paren-union', '', '(((e: \'%s\') => void) | (%s))' % (ev[0], ' | '.join("((e: '%s') => void)" % n for n in ev[1:])), ''))
     out.append(('after-interface', '', 'Em', 'interface Em {{ ' + '; '.join(sig(n) for n in ev) + ' }}\n'))
     return out
 
